@@ -113,8 +113,8 @@ PROPS = {
     },
     "C02": {
         "title": "Unmodified round trip preserves module content",
-        "units": ["V3_remap", "V9b_conv", "V11_emit", "V12_sections", "V10_parse", "V13_constexpr", "V14_types_emit", "V17_encode_skeleton"],
-        "obligations_extra": V14_TYPES + V13_CONSTEXPR + V10_PARSE_SECTIONS + V11_EMIT + V11_CODE + V12_TAGS + V12_TABLES + V12_ELEMS + V12_CEXPR + V12_IMPORTS + V12_EXPORTS + V12_START + V12_DATA + V12_GLOBALS + V12_MEMS + V12_CUSTOM + V17_SKELETON
+        "units": ["V3_remap", "V9b_conv", "V11_emit", "V12_sections", "V10_parse", "V13_constexpr", "V14_types_emit", "V17_encode_skeleton", "V6b_api2"],
+        "obligations_extra": V14_TYPES + V13_CONSTEXPR + V10_PARSE_SECTIONS + V11_EMIT + V11_CODE + V12_TAGS + V12_TABLES + V12_ELEMS + V12_CEXPR + V12_IMPORTS + V12_EXPORTS + V12_START + V12_DATA + V12_GLOBALS + V12_MEMS + V12_CUSTOM + V17_SKELETON + PARSE_IDS_FUNCS + PARSE_IDS_GLOBALS + PARSE_IDS_MEMS
                              + ["V12_sections.encode_type_section.groups_in_order_explicit_ones_as_one_rec_entry", "V12_sections.fn:Module::encode_type_section", "V12_sections.encode_names.*", "V12_sections.fn:Module::encode_names"],
         "kani": ["k1_valtype_roundtrip", "k1_valtype_roundtrip_exn_cont", "k1_valtype_encoder_matches_upstream", "k4_v128_bytes_preserved", "k4_ieee32_from_float_bits", "k4_ieee64_from_float_bits"],
         "kani_thorough": ["k5_spec_global_get", "k5_spec_ref_func", "k5_spec_struct_new", "k5_spec_struct_new_default", "k5_spec_array_new", "k5_spec_array_new_default", "k5_spec_ref_i31"],   # about 4 min of CBMC together: thorough tier only
@@ -363,7 +363,7 @@ PROPS = {
     "C22": {
         "title": "Special-mode injections are never silently lost",
         "units": ["V4_inject", "V4b_iter_inject", "V11_emit", "V8_lower", "V15_probes"],
-        "obligations": V11_EMIT + ["V15_probes.take_function_level_code.functions_marked_special_are_lowered_the_others_skipped", "V15_probes.take_function_level_code.entry_and_exit_code_handed_over_as_injected", "V15_probes.take_function_level_code.stored_function_level_code_is_emptied", "V15_probes.fn:Module::take_function_level_code", "V15_probes.fn:Functions::get_kind_mut", "V8_lower.prepare_function_exit.*", "V8_lower.fn:Module::prepare_function_exit", "V8_lower.fn:Functions::get_type_id", "V8_lower.fn:Types::results", "V4b_iter_inject.ModuleIterator.*", "V4b_iter_inject.fn:ModuleIterator as *", "V4b_iter_inject.ComponentIterator.*", "V4b_iter_inject.fn:ComponentIterator as *", "V4b_iter_inject.fn:Functions::get_mut"] + ["V4_inject.InstrumentationFlag.add_instr.*", "V4_inject.fn:InstrumentationFlag::add_instr", "V4_inject.is_block_style_op.*", "V4_inject.is_branching_op.*",
+        "obligations": V11_EMIT + ["V8_lower.lower_plain_instruction.*", "V8_lower.fn:Module::lower_plain_instruction_with_function_level_code", "V8_lower.lower_end_with_pending_bodies.function_level_code_spent_where_placed", "V8_lower.fn:Module::lower_end_with_pending_bodies", "V8_lower.lower_one_instruction.no_entry_or_exit_code_for_a_removed_instruction", "V8_lower.fn:Module::lower_one_instruction", "V15_probes.take_function_level_code.functions_marked_special_are_lowered_the_others_skipped", "V15_probes.take_function_level_code.entry_and_exit_code_handed_over_as_injected", "V15_probes.take_function_level_code.stored_function_level_code_is_emptied", "V15_probes.fn:Module::take_function_level_code", "V15_probes.fn:Functions::get_kind_mut", "V8_lower.prepare_function_exit.*", "V8_lower.fn:Module::prepare_function_exit", "V8_lower.fn:Functions::get_type_id", "V8_lower.fn:Types::results", "V4b_iter_inject.ModuleIterator.*", "V4b_iter_inject.fn:ModuleIterator as *", "V4b_iter_inject.ComponentIterator.*", "V4b_iter_inject.fn:ComponentIterator as *", "V4b_iter_inject.fn:Functions::get_mut"] + ["V4_inject.InstrumentationFlag.add_instr.*", "V4_inject.fn:InstrumentationFlag::add_instr", "V4_inject.is_block_style_op.*", "V4_inject.is_branching_op.*",
                         "V4_inject.fn:InstrumentationFlag::is_block_style_op", "V4_inject.fn:InstrumentationFlag::is_branching_op",
                         "V4_inject.FuncInstrFlag.*", "V4_inject.fn:FuncInstrFlag::add_instr", "V4_inject.fn:Instruction::add_instr",
                         "V4_inject.LocalFunction.*", "V4_inject.fn:LocalFunction::add_instr",
